@@ -5,7 +5,7 @@ from ..harness import scn, gen, obs as O, pyeval
 from . import base_scn, compose
 
 pid = 'C09'
-gen_modules = ['tr_state', 'tr_validators', 'tr_has_patcher', 'tr_contracts', 'tr_objmodel', 'tr_decorators']
+gen_modules = ['tr_state', 'tr_validators', 'tr_has_patcher', 'tr_contracts', 'tr_decorators', 'tr_pin_contracts']
 model_targets = ['Sem/ScnObj.v']
 hand_modelled = ['coq/Sem/ObjModel.v: attach / attach_has / _ensure_wrapped / update_wrapper / chain / foreign decorators on a heap of function '
                  'objects (hand-written; the source text of these functions is pinned by tools/py2coq/tr_objmodel.py)']
@@ -128,7 +128,8 @@ def run(ctx, fr, model_available=True):
             fr.violations.append({'scenario': sc, 'impl': oi, 'what': what, 'signature': tag})
         if om is not None:
             fr.programs += 1; fr.traces_validated += 1
-            if om != oi: fr.disagreements.append({'scenario': sc, 'impl': oi, 'model': om})
+            # the introspection answers (the Q lines) are C14's subject: composition is compared on the runtime observations only
+            if om.split('|Q ')[0] != oi.split('|Q ')[0]: fr.disagreements.append({'scenario': sc, 'impl': oi, 'model': om})
     fr.rule = RULE; fr.samples.append({'scenario': scs[-1], 'impl': im[-1]}); fr.distribution = dict(dist, scenarios=len(scs))
 def search(ctx, fr, model_available=True): return base_scn.search(_me, ctx, fr, model_available)
 classify = base_scn.classify
